@@ -145,9 +145,11 @@ def w_adc(ctx, rng, i):
     nbits = int(rng.integers(1, 13))
     otype = "vn"[int(rng.integers(2))]
     x = make_record(rng, dist, n_samp, scale, offset)
+    if i % 13 == 0:
+        x = np.round(rng.normal(0, 40, n_samp)).astype(int)    # integer-dtype samples
     if np.unique(x).size < 2:
         raise core.Skip()
-    form = int(rng.integers(3))
+    form = int(rng.integers(3)) if x.dtype.kind == 'f' else 2 * int(rng.integers(2))
     ctx.describe(dist=dist, n_samp=n_samp, scale=scale, offset=offset, nbits=nbits, otype=otype, form=form)
     with core.quiet():
         if form == 0:
